@@ -19,7 +19,7 @@
               k = the k-th imported module file: its bodies see only their own module's symbols)]
      catch = [cls: Str, body: Seq(stmt)]
      class = [name, props: Seq([n, e]), ctor: Seq(func) (0/1), methods: Seq(func)]
-     stmt  = decl(names, const, e) | expr(e) | if(conds, blocks, els) | while(c, body)
+     stmt  = decl(names, const, e) | declblock(pairs: Seq([names, const, e])) | expr(e) | if(conds, blocks, els) | while(c, body)
            | iter(names, e, body) | break | cont | ret(e) | throw(cls, args)
      expr  = num(v) | str(v) | bool(v) | null | var(n) | bin(op, l, r) | list(items)
            | dict(keys, vals) | idx(e, i) | mem(e, p) | this(p) | call(f, args, y)
@@ -96,7 +96,8 @@ Patch(code, headPos, exitPos) ==
      ELSE code[j]]
 
 \* cx = [top: is this the body's own statement list, since: scopes opened since the innermost loop body began (-1: no loop)]
-RECURSIVE CS(_, _, _), CSs(_, _, _, _), CArms(_, _, _, _)
+RECURSIVE CS(_, _, _), CSs(_, _, _, _), CArms(_, _, _, _), CPairs(_)
+CPairs(ps) == IF ps = <<>> THEN <<>> ELSE CE(ps[1].e) \o << [i |-> "decl", names |-> ps[1].names, const |-> ps[1].const] >> \o CPairs(Tail(ps))
 CSs(ss, pfx, cx, j) == IF j > Len(ss) THEN <<>> ELSE CS(ss[j], pfx \o <<j>>, cx) \o CSs(ss, pfx, cx, j + 1)
 Inner(cx) == [top |-> FALSE, since |-> IF cx.since < 0 THEN -1 ELSE cx.since + 1]
 Block(ss, pfx, cx) == << Ins("begin") >> \o CSs(ss, pfx, Inner(cx), 1) \o << Ins("end") >>
@@ -111,6 +112,8 @@ CArms(s, p, cx, a) ==
 CS(s, p, cx) ==
   << [i |-> "line", p |-> p] >> \o
   CASE s.k = "decl" -> CE(s.e) \o << [i |-> "decl", names |-> s.names, const |-> s.const] >> \o Tail0(cx, FALSE)
+    \* 令： with one line per pair - ONE statement that performs the declarations in order, each pair with its own 恒为 / =
+    [] s.k = "declblock" -> CPairs(s.pairs) \o Tail0(cx, FALSE)
     [] s.k = "expr" -> CE(s.e) \o Tail0(cx, TRUE)
     [] s.k = "if" -> CArms(s, p, cx, 1) \o Tail0(cx, FALSE)
     [] s.k = "while" ->
